@@ -19,16 +19,17 @@ PROP = dict(
         "operands with two members under one index of an array/string/byte array heading are not generated; results of "
         "that shape are class KF-superimposed",
     ],
-    level_text="Proof: 27 Lean theorems. Spec level: the eight operators on values are well defined on rows, the seven other operators are "
+    level_text="Proof: 30 Lean theorems. Spec level: the eight operators on values are well defined on rows, the seven other operators are "
                "projections of <&>, nest loses/invents no row and its groups are disjoint on the key, unnest inverts nest. Impl level "
                "(transliteration of the repaired Go code): the generic path (RelationAttrs, GenericJoin, the eight combine closures, SetBuilder) "
                "and the positional path (Relation.Join: getIndices, compose, createMode, JoinKeepEverything, joinOneSide with its identity fast path, "
                "JoinCommonOnly with its re-mapping, JoinIfCommonExist, the empty/literal-true short-cuts and the re-sugaring branch) each denote "
                "Spec.join op for all eight operators, all headings (any class empty, any column order) and all well-formed operand representations; "
                "createMode never panics on the eight partitions and selects a strategy whose side condition holds (finite Boolean table by case analysis); "
-               "both paths agree; Nest (nestWithFunc + Reduce) denotes Spec.nest; the Rank loop assigns the number of strictly smaller keys, also for "
-               "several rank attributes; join results are again well-formed operands, so the refinement chains through nested joins. Stated but "
-               "proved only on concrete witnesses (decide): Rank/Unnest/SingleAttrNest at representation level. The model is tied to the Go code by running both on generated arr.ai programs "
+               "both paths agree; join results are again well-formed operands, so the refinement chains through nested joins; Nest (nestWithFunc + Reduce, "
+               "both |attrs| and ~|attrs|), SingleAttrNest and Unnest denote Spec.nest/singleNest/unnest; Rank (one sorting pass per rank attribute) "
+               "denotes Spec.rank: every row gains the number of rows with a strictly smaller key. The pre-repair re-sugaring loop is shown to index "
+               "out of range on the recorded witness. The model is tied to the Go code by running both on generated arr.ai programs "
                "(all operand representations, chained and shared joins, exhaustive small headings) on every run.",
     design_ref="DESIGN.md section 6, C04",
     watch=["rel.RelationAttrs", "rel.nestWithFunc", "rel.validNestOp", "rel.Nest", "rel.SingleAttrNest", "rel.Unnest", "rel.Reduce",
